@@ -392,7 +392,7 @@ func (r *chanRun) read(si int, op vfh.Op, prev, next chanState) bool {
 	if cap(r.buf) < b {
 		r.buf = make([]byte, b+4096)
 	}
-	buf := r.buf[:b]
+	buf := r.buf[:b:b] // exact capacity: a reader that reaches beyond len(buf) panics instead of scribbling
 	for i := 0; i < len(buf) && i < 64; i++ {
 		buf[i] = 0xEE
 	}
